@@ -56,16 +56,24 @@ Definition inner_ok (res : option ((console * list N) + ((console * list N) * (u
 
 Lemma g_wc_write_all_eq raw s buf : wconv_u (g_wc_write_all raw s buf) = wc_write_all s buf raw.
 Proof.
-  unfold g_wc_write_all, wc_write_all, wci_new, wci_enter.
-  match goal with |- context [while_fuel _ ?f _] => set (step := f) end.
-  assert (L : forall fuel bs p cap c b0,
-             wconv_u (match while_fuel fuel step (bs, c, mkWS p cap, b0) with
-                      | Some (inl (_, raw6, state4, _)) => Some (raw6, state4, inl tt)
-                      | Some (inr ((_, raw7, state5, _), rv1)) => Some (raw7, state5, rv1)
-                      | None => None
-                      end) = wc_write_all_loop fuel bs p cap c).
-  { induction fuel as [|fuel IH]; intros bs p cap c b0; [reflexivity|].
-    cbn [while_fuel wc_write_all_loop]. unfold step at 1. unfold wci_next. cbn [ws_parser ws_capture].
+  (* combinator, step, initial tuple and continuation of the outer loop are read off the goal (as Proofs/StreamGen.v
+     g_write_all_eq does): `mk` is the initial tuple with the iterator, the console and the stream state abstracted, in
+     whatever order the translator carries them and whatever further loop variables (a shadowed `buf`) ride along *)
+  unfold g_wc_write_all, wc_write_all, wci_enter. cbv zeta.
+  match goal with
+  | |- wconv_u (match ?W ?fuel0 ?f ?init with Some x => @?K x | None => None end) = _ =>
+      let pat := eval pattern (wci_new buf), raw,
+                 (mkWS (ws_parser s) (mkCap (c_style (ws_capture s)) (c_printable (ws_capture s)) None)) in init in
+      match pat with
+      | ?mk _ _ _ =>
+          set (step := f);     (* opaque: unfolded one round at a time, the inner loop inside it stays folded *)
+          assert (L : forall fuel bs p cap c,
+                     wconv_u (match W fuel step (mk bs c (mkWS p cap)) with Some x => K x | None => None end)
+                     = wc_write_all_loop fuel bs p cap c)
+      end
+  end.
+  { induction fuel as [|fuel IH]; intros bs p cap c; [reflexivity|].
+    cbn [while_fuel while_fuel0 wc_write_all_loop]. unfold step at 1. unfold wci_next. cbn [ws_parser ws_capture].
     destruct (wincon_next bs p cap) as [[[[item bs1] p1] cap1]|]; [|reflexivity].
     destruct item as [[style txt]|]; [|reflexivity].
     rewrite !cap_stage.
@@ -97,11 +105,8 @@ Proof.
     - rewrite I. apply IH.
     - destruct I as (e & -> & ->). reflexivity.
     - contradiction. }
-  specialize (L (S (S (length buf))) buf (ws_parser s)
-                (mkCap (c_style (ws_capture s)) (c_printable (ws_capture s)) None) raw buf).
-  rewrite <- L.
-  match goal with |- context [while_fuel ?a ?b ?c] => destruct (while_fuel a b c) as [[[[[? ?] ?] ?]|[[[[? ?] ?] ?] ?]]|] end;
-    reflexivity.
+  apply (L (S (S (length buf))) buf (ws_parser s)
+           (mkCap (c_style (ws_capture s)) (c_printable (ws_capture s)) None) raw).
 Qed.
 
 (* ---- fn write (as repaired) and fn write_fmt ------------------------------------------------ *)
